@@ -10,7 +10,7 @@ func init() {
 			"claim resets exactly the claimed position (or deletes it when it holds no shares) and truncates only via TruncateDecimal; the set of functions writing position and accumulator records.",
 		NotCovered:  []string{"claim = Σ growth × shares over a history as a number", "total shares = Σ position shares as an invariant over histories"},
 		Assumptions: []string{"osmoutils.MustSet/Get and the KV store are the effect primitives"},
-		MinObl:      53,
+		MinObl:      58,
 		Run:         runC15,
 	})
 }
@@ -74,6 +74,10 @@ func runC15(c *rules.Ctx) {
 	c.OnlyWhen(UP, "accum.AccumulatorObject.AddToPositionIntervalAccumulation", "not(sdkmath.LegacyDec.IsNegative(numShares))", "positive updates add")
 	c.CallArg(UP, "accum.AccumulatorObject.RemoveFromPositionIntervalAccumulation", 2, "sdkmath.LegacyDec.Neg(numShares)", "the removed amount is the magnitude of the negative update")
 	c.CallArg(UP, "accum.AccumulatorObject.AddToPositionIntervalAccumulation", 2, "numShares", "the added amount is the update")
+	c.CallArg(UP, "accum.AccumulatorObject.AddToPositionIntervalAccumulation", 3, "intervalAccumulationPerShare", "adding re-bases on the caller's interval value, never on the global one")
+	c.CallArg(UP, "accum.AccumulatorObject.RemoveFromPositionIntervalAccumulation", 3, "intervalAccumulationPerShare", "removing re-bases on the caller's interval value, never on the global one")
+	c.CallArg(UP, "accum.AccumulatorObject.AddToPositionIntervalAccumulation", 1, "name", "…for the named position")
+	c.CallArg(UP, "accum.AccumulatorObject.RemoveFromPositionIntervalAccumulation", 1, "name", "…for the named position")
 
 	// SetPositionIntervalAccumulation / AddToUnclaimedRewards keep everything else
 	c.HasCall(A+"SetPositionIntervalAccumulation", "accum.initOrUpdatePosition", []string{"accum", "intervalAccumulationPerShare", "name", "{POS}.NumShares", "{POS}.UnclaimedRewardsTotal", "{POS}.Options"}, true, "only the snapshot changes", "")
@@ -92,6 +96,7 @@ func runC15(c *rules.Ctx) {
 	c.OnlyWhen(CL, "accum.AccumulatorObject.deletePosition", "sdkmath.LegacyDec.IsZero({POSN}.NumShares)", "the record is deleted only when it holds no shares")
 	c.OnlyWhen(CL, "accum.initOrUpdatePosition", "not(sdkmath.LegacyDec.IsZero({POSN}.NumShares))", "…and reset otherwise")
 	c.CallArg(CL, "accum.AccumulatorObject.deletePosition", 1, "positionName", "the deleted record is the claimer's")
+	c.HasCall(CL, "accum.AccumulatorObject.deletePosition|accum.initOrUpdatePosition", nil, true, "every successful claim rewrites the claimer's record (deleted or reset) — also when only sub-unit dust was owed, so the same growth is never counted twice", "rewrite")
 
 	// DeletePosition
 	const DL = A + "DeletePosition"
